@@ -1,8 +1,12 @@
 #!/bin/bash
-# pick_fixes.sh <branch>: cherry-pick onto /repo main, in branch order, every commit of <branch> not yet applied (by patch-id)
+# pick_fixes.sh <branch>: cherry-pick onto /repo main, in branch order, every commit of <branch> not yet applied (by patch-id).
+# If the builder's frozen snapshot records the head it was validated with (/tmp/<branch>/snap/SNAP_HEAD), only commits up to it are picked.
 cd /repo
-NEW=$(git cherry main "$1" | grep '^+' | cut -d' ' -f2)
-for c in $(git rev-list --reverse --topo-order main.."$1"); do
+B="$1"; TIP="$B"
+SH="/tmp/$B/snap/SNAP_HEAD"
+if [ -f "$SH" ] && git rev-parse -q --verify "$(cat $SH)^{commit}" >/dev/null; then TIP="$(cat $SH)"; fi
+NEW=$(git cherry main "$TIP" | grep '^+' | cut -d' ' -f2)
+for c in $(git rev-list --reverse --topo-order main.."$TIP"); do
   echo "$NEW" | grep -q "$c" || continue
   if git cherry-pick "$c" >/dev/null 2>&1; then echo "picked $(git log -1 --format='%h %s' "$c" | cut -c1-110)"; else echo "CONFLICT-SKIPPED $(git log -1 --format="%h %s" "$c" | cut -c1-120)"; git cherry-pick --abort; fi
 done
